@@ -174,7 +174,10 @@ func (s *pcSys) done(id, kind string) bool {
 		return true
 	}
 	good := kind == "ok" || kind == "acc"
-	if good && after < before {
+	// (the score is an integer obtained by truncating a floating-point average: at the fixed
+	// point 1000*w + 1000*(1-w) may come out as 999.99..., i.e. one point below - that is the
+	// granularity of the score, not a move away from 1000)
+	if good && after+1 < before {
 		s.r.Failf("success score of %s moved away from 1000 on an acceptable completion: %d -> %d", id, before, after)
 	}
 	if !good && after > before {
@@ -314,7 +317,8 @@ func TestVerifP2cForcedPick(t *testing.T) {
 		var ops []string
 		depth := 8
 		if n == 2 {
-			ops = []string{"pick", "done:c0:ok", "done:c1:ok", "t600"}
+			// (t61000: more than the one-minute statistics interval, with calls still open)
+			ops = []string{"pick", "done:c0:ok", "done:c1:ok", "t600", "t61000"}
 		} else {
 			depth = 6
 			for a := 0; a < n; a++ {
